@@ -96,9 +96,9 @@ PROPS = {
         rule=BLOCK_RULE, assumptions=BLOCK_ASSUME + ['C05_bounds lower bound assumes intrinsic + refundCounter <= gas used before refund (geth gas table: every refunded unit was paid for); E-block checks intrinsic <= gasUsed on every committed tx'],
     ),
     'C06': dict(
-        lean_modules=['Model.Block', 'Model.Ante', 'Properties.C05', 'Properties.C06', 'Properties.C07', 'Facts.Block', 'Facts.Ante', 'Facts.TieTransition', 'Facts.TieAnteEvm', 'Facts.TieMeta'],
+        lean_modules=['Model.Block', 'Model.Ante', 'Properties.C05', 'Properties.C06', 'Properties.C07', 'Facts.Block', 'Facts.Ante', 'Facts.TieTransition', 'Facts.TieAnteEvm', 'Facts.TieAnteSig', 'Facts.TieMeta'],
         facts=['*'],
-        theorems=['tie_pre_check_accepts', 'tie_validate_eoa', 'fact_translated_all', 'fact_uninterpreted', 'C06_authorised', 'C06_seq_plus_one', 'C06_seq_unchanged', 'C06_seq_monotone', 'C06_no_replay', 'C06_seq_counts',
+        theorems=['tie_pre_check_accepts', 'tie_validate_eoa', 'tie_sig_verification', 'tie_sig_accepts', 'tie_increment_sequence', 'tie_increment_is_plus_one', 'fact_translated_all', 'fact_uninterpreted', 'C06_authorised', 'C06_seq_plus_one', 'C06_seq_unchanged', 'C06_seq_monotone', 'C06_no_replay', 'C06_seq_counts',
                   'C07_handler_unreachable', 'C07_cosmos_lane', 'fact_nonce_flag_used', 'fact_ante_order', 'fact_ante_chain', 'fact_disabled_list'],
         engines=[dict(name='block', test='TestEngineBlock', quick=500, thorough=6000, thorough_seeds=3),
                  dict(name='ante', test='TestEngineAnte', quick=250, thorough=3000, thorough_seeds=2),
